@@ -37,6 +37,10 @@ pub fn install_panic_hook() {
     }));
 }
 
+pub fn clear_panic() {
+    LAST_PANIC.with(|p| *p.borrow_mut() = None);
+}
+
 fn take_panic() -> String {
     LAST_PANIC.with(|p| p.borrow_mut().take()).unwrap_or_else(|| "?: <unknown panic>".into())
 }
@@ -113,6 +117,7 @@ impl Lib {
     /// Create a fresh compound file on `disk`.  Returns the library's error as Err.
     pub fn create(disk: SimDisk, version: u16, bufsize: Option<usize>) -> Result<Lib, Res> {
         let d2 = disk.clone();
+        clear_panic();
         let r = catch_unwind(AssertUnwindSafe(|| match (version, bufsize) {
             (4, Some(b)) => cfb::OpenOptions::new().max_buffer_size(b).create_with(d2),
             (v, _) => CompoundFile::create_with_version(version_of(v), d2),
@@ -127,6 +132,7 @@ impl Lib {
     /// Open the bytes on `disk`.
     pub fn open(disk: SimDisk, strict: bool, bufsize: Option<usize>) -> Result<Lib, Res> {
         let d2 = disk.clone();
+        clear_panic();
         let r = catch_unwind(AssertUnwindSafe(|| {
             let mut o = cfb::OpenOptions::new();
             if let Some(b) = bufsize {
@@ -215,6 +221,7 @@ impl Lib {
     pub fn exec(&mut self, op: &Op) -> Res {
         self.call_no += 1;
         self.disk.begin_call(self.call_no, self.budget());
+        clear_panic();
         let r = catch_unwind(AssertUnwindSafe(|| self.exec_inner(op)));
         match r {
             Ok(res) => res,
@@ -448,6 +455,7 @@ impl Lib {
     pub fn dump(&mut self, skip: &[String]) -> Result<Dump, Res> {
         self.call_no += 1;
         self.disk.begin_call(self.call_no, if self.budget_base == 0 { u64::MAX } else { self.budget().saturating_mul(8) });
+        clear_panic();
         let r = catch_unwind(AssertUnwindSafe(|| dump_api(self.cf.as_mut().unwrap(), skip)));
         match r {
             Ok(Ok(d)) => Ok(d),
